@@ -626,6 +626,10 @@ func (e *AnimEncoder) AddFrame(img image.Image, duration time.Duration) error {
 	}
 	// Fast path for pre-encoded bitstream data (no optimization possible).
 	if bf, ok := img.(*bitstreamFrame); ok {
+		if duration/time.Millisecond > maxDuration {
+			// The muxer would clamp it silently (24-bit field).
+			return fmt.Errorf("animation: frame duration %v exceeds the per-frame maximum of %d ms", duration, maxDuration)
+		}
 		err := e.muxer.AddFrame(bf.data, &mux.FrameOptions{
 			Duration: int(duration / time.Millisecond),
 		})
@@ -1254,6 +1258,10 @@ func copyImageRect(dst *image.NRGBA, src *image.NRGBA, offX, offY int) {
 func (e *AnimEncoder) AddRawFrame(bitstreamData []byte, duration time.Duration, offsetX, offsetY int, blend BlendMethod, dispose DisposeMethod) error {
 	if e.closed {
 		return errors.New("animation: encoder is closed")
+	}
+	if duration/time.Millisecond > maxDuration {
+		// The muxer would clamp it silently (24-bit field).
+		return fmt.Errorf("animation: frame duration %v exceeds the per-frame maximum of %d ms", duration, maxDuration)
 	}
 	err := e.muxer.AddFrame(bitstreamData, &mux.FrameOptions{
 		Duration:    int(duration / time.Millisecond),
